@@ -125,6 +125,7 @@ func checkC08(c *Ctx, r *Report) {
 	ruleTokenPos(c, r, "token-pos")
 	ruleRefill(c, r, "refill-affine")
 	ruleFullRune(c, r, "full-rune")
+	ruleCursorSteps(c, r, "cursor-steps")
 	ruleLineCalcAdd(c, r, "newline-only")
 	r.rule("emit-prev-pos", 6, "every code byte is written by Prog.write with the position of the previous token; Prog.write appends one byte and one position")
 	checkEmitPrimitives(c, r, "emit-prev-pos")
